@@ -16,6 +16,7 @@ package grandpa
 // `grandpaMessage` varying data type.
 
 import (
+	"encoding/hex"
 	"fmt"
 	"reflect"
 	"sort"
@@ -41,7 +42,9 @@ type c14Kind struct {
 	enc    func(p reflect.Value) ([]byte, error) // p: pointer to the built value
 	dec    func(b []byte) (reflect.Value, error) // pointer to the decoded value
 	extra  func(p, d reflect.Value, derr error) string
-	other  bool // the generator may emit `Other` digest items (spec-valid, not representable)
+	// decode into an existing receiver (nil: the package's API only returns new values)
+	decInto func(b []byte, p reflect.Value) error
+	other   bool // the generator may emit `Other` digest items (spec-valid, not representable)
 	// special answers for values the real Go type cannot hold (ok=false: use the normal path)
 	special func(k *c14Kind, p reflect.Value) (out string, ok bool)
 }
@@ -77,7 +80,8 @@ func c14Add(k *c14Kind) {
 }
 
 func c14AddScale[T any](name string, weight int) *c14Kind {
-	k := &c14Kind{name: name, typ: c14T[T](), weight: weight, dec: c14ScaleDec(c14T[T]())}
+	k := &c14Kind{name: name, typ: c14T[T](), weight: weight, dec: c14ScaleDec(c14T[T]()),
+		decInto: func(b []byte, p reflect.Value) error { return scale.Unmarshal(b, p.Interface()) }}
 	c14Add(k)
 	return k
 }
@@ -196,6 +200,7 @@ func init() {
 	dg.other = true
 	dg.special = c14RunOther
 	bp := c14AddScale[types.BabeDigest]("babepre", 6)
+	bp.decInto = nil
 	bp.dec = func(b []byte) (reflect.Value, error) {
 		v, err := types.DecodeBabePreDigest(b)
 		d := types.NewBabeDigest()
@@ -207,6 +212,7 @@ func init() {
 	c14AddScale[types.BabeConsensusDigest]("babecons", 6)
 	c14AddScale[types.GrandpaConsensusDigest]("gpcons", 6)
 	body := c14AddScale[types.Body]("body", 5)
+	body.decInto = nil
 	body.dec = func(b []byte) (reflect.Value, error) {
 		d, err := types.NewBodyFromBytes(b)
 		return reflect.ValueOf(d), err
@@ -234,14 +240,16 @@ func init() {
 			d := &messages.BlockRequestMessage{}
 			err := d.Decode(b)
 			return reflect.ValueOf(d), err
-		}})
+		},
+		decInto: func(b []byte, p reflect.Value) error { return p.Interface().(*messages.BlockRequestMessage).Decode(b) }})
 	c14Add(&c14Kind{name: "bresp", typ: c14T[messages.BlockResponseMessage](), weight: 8,
 		enc: func(p reflect.Value) ([]byte, error) { return p.Interface().(*messages.BlockResponseMessage).Encode() },
 		dec: func(b []byte) (reflect.Value, error) {
 			d := &messages.BlockResponseMessage{}
 			err := d.Decode(b)
 			return reflect.ValueOf(d), err
-		}})
+		},
+		decInto: func(b []byte, p reflect.Value) error { return p.Interface().(*messages.BlockResponseMessage).Decode(b) }})
 	// internal/primitives/consensus/grandpa (finality-grandpa types), block number u32 and u64
 	c14AddScale[primitives.Commit[hash.H256, uint32]]("fgcommit32", 2)
 	c14AddScale[primitives.Commit[hash.H256, uint64]]("fgcommit64", 1)
@@ -360,6 +368,32 @@ func c14InitHooks() {
 					parts[i] = "V0#Other:" + c14Gen(r, c14T[[]byte](), depth+1)
 				} else {
 					parts[i] = c14Gen(r, itemT, depth+1)
+				}
+			}
+			return "[" + strings.Join(parts, ",") + "]"
+		},
+	}
+	// block bodies: extrinsic counts at the compact length-prefix boundaries (64, 16384), also
+	// inside a BlockResponse (NewBodyFromEncodedBytes writes the count itself)
+	c14Hooks[c14T[types.Body]()] = &c14Hook{
+		genText: func(r *vhRng, depth int) string {
+			n := 0
+			switch k := r.Intn(200); {
+			case k == 0:
+				n = r.Pick(16383, 16384, 16385)
+			case k < 30:
+				n = r.Pick(62, 63, 64, 65)
+			case k < 130:
+				n = r.Intn(4)
+			default:
+				n = 4 + r.Intn(5)
+			}
+			parts := make([]string, n)
+			for i := range parts {
+				if n > 8 {
+					parts[i] = "x" + hex.EncodeToString(r.Bytes(r.Intn(3)))
+				} else {
+					parts[i] = c14Gen(r, c14T[types.Extrinsic](), depth+1)
 				}
 			}
 			return "[" + strings.Join(parts, ",") + "]"
@@ -557,10 +591,13 @@ func c14Run(line string) string {
 		d, derr = k.dec(enc)
 		if derr != nil {
 			out += " rt=err"
-		} else if dt := c14Dump(d.Elem()); dt == text {
-			out += " rt=ok"
 		} else {
-			out += " dec=" + dt
+			if dt := c14Dump(d.Elem()); dt == text {
+				out += " rt=ok"
+			} else {
+				out += " dec=" + dt
+			}
+			out += c14Hard(k, line, text, p, enc, d)
 		}
 	}
 	if k.extra != nil {
